@@ -159,7 +159,7 @@ def check_contain(ctx):
             ctx.check(not bad, inst, "DOM", body.path, "[indeterminate] allocations are quarantined before returning", body.where(sw))
             r, ps = A.reach(body, edge_targets(body, sw, l))
             rel = [n for n in r if body.nodes[n].kind == "call" and any(
-                t and (ctx.prog.reaches(t, lambda nm: path_matches(nm, "FreeSpaceManager::release_sectors")) or path_matches(t, "FreeSpaceManager::release_sectors"))
+                t and (ctx.prog.reaches_name(t, "FreeSpaceManager::release_sectors") or path_matches(t, "FreeSpaceManager::release_sectors"))
                 for t in ctx.prog.targets(body.nodes[n].ev))]
             ctx.check(not rel, inst, "FORBID", body.path, "[indeterminate] nothing that can release sectors is called", body.where(sw),
                       None if not rel else {"site": body.where(rel[0])})
